@@ -4,6 +4,7 @@ mod common;
 mod r_hist;
 mod r_minmax;
 mod r_nan;
+mod r_num;
 mod r_quant;
 mod r_sort;
 
@@ -22,6 +23,13 @@ fn dispatch(routine: &str, t: &mut Toks) -> String {
         "remove_nan" | "skipnan" | "skipnan_axis" => r_nan::run(routine, t),
         "minmax" => r_minmax::run(routine, t),
         "quantiles" | "quantile" | "quantiles1" | "quantile1" | "qskipnan" => r_quant::run(routine, t),
+        "mean" | "harmonic_mean" | "geometric_mean" | "kurtosis" | "skewness" | "central_moment"
+        | "central_moments" | "entropy" | "weighted_mean" | "weighted_sum" | "weighted_var"
+        | "weighted_std" | "kl_divergence" | "cross_entropy" | "weighted_mean_axis"
+        | "weighted_sum_axis" | "weighted_var_axis" | "weighted_std_axis" | "cov"
+        | "pearson_correlation" | "count_eq" | "count_neq" | "sq_l2_dist" | "l1_dist" | "linf_dist"
+        | "l2_dist" | "mean_abs_err" | "mean_sq_err" | "root_mean_sq_err"
+        | "peak_signal_to_noise_ratio" => r_num::run(routine, t),
         "profile" => {
             if cfg!(debug_assertions) {
                 "OK debug".to_string()
